@@ -414,6 +414,9 @@ def trip_count(ivars, guard):
         return entry
     if d == -1 and op == ">=" and bound == "1":
         return entry
+    # a pointer (or index) walking from E up to E + N
+    if d == 1 and op in ("<", "!=") and bound.startswith("(" + entry + " + ") and bound.endswith(")"):
+        return bound[len(entry) + 4:-1]
     return None
 
 
